@@ -20,10 +20,16 @@ Arguments r_prefix {C}.
 
 Definition reg_empty {C} : regcore C := mkReg [] [] [] None None.
 
-(* Registry::new_custom (after the C09b repair) *)
+(* histogram::BUCKET_LABEL = "le" (Model/Hist.v proves BUCKET_LABEL = reserved_le) *)
+Definition reserved_le : str := [0x6C; 0x65].
+
+(* Registry::new_custom (after the C09b repair and the reserved-le repair) *)
 Definition reg_new_custom {C} (prefix : option str) (labels : option (list (str * str))) : result (regcore C) :=
   let bad_prefix := match prefix with Some p => is_nil p || negb (is_valid_metric_name p) | None => false end in
-  let bad_labels := match labels with Some l => negb (forallb (fun kv => is_valid_label_name (fst kv)) l) | None => false end in
+  let bad_labels := match labels with
+                    | Some l => negb (forallb (fun kv => is_valid_label_name (fst kv)) l)
+                                || existsb (fun kv => str_eqb reserved_le (fst kv)) l    (* the reserved-le repair *)
+                    | None => false end in
   if bad_prefix || bad_labels then Err EMsg
   else Ok (mkReg [] [] [] labels prefix).
 
